@@ -41,6 +41,13 @@ arrays, lists, integer arrays, 2-d arrays, -0.0 for 0.0: the answer must be the
 one for the plain float.  The caller's arrays (H.call_twice: owned, read-only,
 strided, reversed; 0-d limits of integrate) must come back bit-for-bit
 unchanged and a second call with the same object must give the same answer.
+Large-input stage (check_large; oracle only - nothing of that size goes to Coq):
+ONE call with an array of 1001-5000 levels that is not ascending (shuffled,
+descending, an oscillating record, sorted with ties, blocks reversed; repeated,
+knot and out-of-range levels; sizes past 1000 / 1024 / 2048 / 4096) compared
+element by element with the scalar calls, and ONE object asked for more than
+1024 / 4096 DISTINCT ranges and then for early / boundary / late ones again in
+both orders of the limits, every answer against the area under the same function.
 """
 import math
 from fractions import Fraction
@@ -679,6 +686,151 @@ def check_history(cases, out):
         gc.collect()
 
 
+# ------------------------------------------------------------- large inputs (oracle only)
+
+def large_cases(seed, tier):
+    """Cases of the large-input stage, each from its own random stream: long arrays of levels for ONE call (sizes
+    past 1000 / 1024 / 2048 / 4096, never a multiple of a block size; shuffled, descending, an oscillating record,
+    sorted with ties, blocks reversed) and long histories of integrate() calls on ONE object (more than 1024 / 2048 /
+    4096 distinct ranges, then early / boundary / late ranges again).  Judged by the oracle alone: nothing of this
+    size is sent to Coq."""
+    cases = []
+    kinds = ['param', 'wide', 'tight', 'full', 'wiggly', 'negative']
+    shipped = dict(kind='shipped', knots=[-291.7, -183.1, -15.74, 10.65, 38.78, 168.3],
+                   values=[0.1358, 0.1671, 0.2541, 0.2907, 0.2892, 0.6857])
+    bands = [0, 1, 3] if tier == 'quick' else [0, 1, 2, 3, 4, 1, 2, 3, 0, 1, 3, 4]
+    for k, band in enumerate(bands):
+        rng = C.rng_for(seed, PROP, 'large', 'array', k)
+        ks = shipped if k == 0 else GS.gen_knots(rng, kinds[(seed + k) % len(kinds)])
+        order = GS.LONG_ORDERS[(seed + k) % len(GS.LONG_ORDERS)]
+        n = GS.long_size(rng, band)
+        cases.append(dict(level='large', what='array', knots=ks['knots'], values=ks['values'],
+                          via='factory' if k % 2 else 'class', order=order,
+                          mode=H.ARRAY_MODES[1 + (seed + k) % (len(H.ARRAY_MODES) - 1)],
+                          levels=GS.long_levels(rng, ks['knots'], n, order)))
+    bands = [1, 3] if tier == 'quick' else [1, 2, 3, 4, 1, 3]
+    for k, band in enumerate(bands):
+        rng = C.rng_for(seed, PROP, 'large', 'integrals', k)
+        ks = shipped if k == 0 else GS.gen_knots(rng, kinds[(seed + k + 3) % len(kinds)])
+        n = GS.long_size(rng, band)
+        cases.append(dict(level='large', what='integrals', knots=ks['knots'], values=ks['values'],
+                          via='factory' if k % 2 else 'class', **GS.many_ranges(rng, ks['knots'], n)))
+    return cases
+
+
+def size_class(n):
+    return '>%d' % max([0] + [b for b in GS.BLOCK_BOUNDARIES if n > b])
+
+
+def check_large_array(case, obj, out):
+    """ONE call with a long array of levels: element by element the value of the scalar call at that level; the knot
+    values at the knots, the end values beyond the range; the caller's array unchanged; the same answer twice."""
+    knots, values, xs = case['knots'], case['values'], case['levels']
+    n = len(xs)
+    tail = ' (one array of %d levels, order: %s; knots %r values %r)' % (n, case['order'], knots, values)
+    out.count('large:array:n%s:%s' % (size_class(n), case['order']))
+    out.count('large:array:not-ascending', int(any(b < a for a, b in zip(xs, xs[1:]))))
+    one = [fl(obj(x)) for x in xs]
+    out.evaluations += n
+    scale = max(max(abs(v) for v in values), max(abs(v) for v in one), 1e-300)
+    lo, hi = fl(obj(knots[0])), fl(obj(knots[-1]))
+    at = dict(zip(knots, values))
+    for mode in ('owned', case['mode']):
+        results, modified = H.call_twice(obj, xs, mode)
+        out.evaluations += 2 * n
+        out.count('large:array-call:%s' % mode, 2)
+        if modified:
+            out.violation('oracle', 'the caller\'s levels were modified by the call (%s array)%s' % (mode, tail), case=case)
+            return
+        for nth, (st, got) in enumerate(results, 1):
+            if st == 'err' or got.shape != (n,):
+                out.violation('oracle', 'specific yield of a %s array: call number %d %s%s'
+                              % (mode, nth, 'was refused (%s)' % (got,) if st == 'err' else
+                                 'gives an answer of shape %r' % (got.shape,), tail), case=case)
+                return
+            got = [float(v) for v in got]
+            bad = [i for i in range(n) if not (got[i] == one[i] or (got[i] != got[i] and one[i] != one[i]))]
+            if bad:
+                i = bad[0]
+                out.violation('oracle', 'specific yield of a %s array of %d levels (call number %d): element %d, level %r, '
+                              'is %r; the scalar call at that level gives %r (%d elements differ, first at indices %r)%s'
+                              % (mode, n, nth, i, xs[i], got[i], one[i], len(bad), bad[:6], tail), case=case)
+                return
+            for i, x in enumerate(xs):
+                want = at.get(x, lo if x < knots[0] else hi if x > knots[-1] else None)
+                if want is not None and not abs(got[i] - want) <= 1e-9 * scale:
+                    out.violation('oracle', 'specific yield of a %s array of %d levels: element %d, level %r (%s), is %r, '
+                                  'expected %r%s' % (mode, n, i, x, 'a knot' if x in at else 'beyond the knot range: the '
+                                                     'value at the end knot', got[i], want, tail), case=case)
+                    return
+    out.nontriv(('L', tuple(knots), n, case['order']))
+
+
+def check_large_integrals(case, obj, out):
+    """A long history of integrate() calls on ONE object, then early / boundary / late ranges again: every answer is
+    the area under the object's own __call__ (Gauss-Legendre between the grid levels, split at the knots), and a
+    range asked again gets the answer it got the first time."""
+    knots, values, lv = case['knots'], case['values'], case['levels']
+    scale = max(max(abs(v) for v in values), max(abs(fl(obj(x))) for x in knots), 1e-300)
+    step_area, step_mag = [], []
+    for a, b in zip(lv, lv[1:]):
+        t, m = area(obj, knots, a, b)
+        step_area.append(t)
+        step_mag.append(m)
+    n_calls = len(case['calls'])
+    tail = ' (knots %r values %r)' % (knots, values)
+    out.count('large:integrals:distinct-ranges%s' % size_class(n_calls))
+    first = {}
+
+    def judge(i, j, v, when):
+        a, b = lv[i], lv[j]
+        p, q = min(i, j), max(i, j)
+        want = math.fsum(step_area[p:q]) * (1 if i <= j else -1)
+        mag = math.fsum(step_mag[p:q])
+        if not abs(v - want) <= 1e-9 * max(mag, scale * 1e-6):
+            out.violation('oracle', 'integrate(%r, %r) = %r %s, but the area under the same function is %r%s'
+                          % (a, b, v, when, want, tail), case=case)
+            return False
+        return True
+
+    for k, (i, j) in enumerate(case['calls']):
+        v = fl(obj.integrate(lv[i], lv[j]))
+        out.evaluations += 1
+        first[(i, j)] = (k, v)
+        if not judge(i, j, v, 'as distinct range number %d integrated on one object' % (k + 1)):
+            return
+    out.count('large:integrals:first-time', n_calls)
+    for i, j in case['repeats']:
+        v = fl(obj.integrate(lv[i], lv[j]))
+        out.evaluations += 1
+        k, v0 = first.get((i, j), first.get((j, i), (None, None)))
+        swapped = (i, j) not in first
+        out.count('large:integrals:asked-again:%s' % ('limits-swapped' if swapped else 'same-order'))
+        when = ('when asked again after %d distinct ranges had been integrated on the same object (this range was '
+                'number %d%s)' % (n_calls, k + 1, ', then with the limits the other way round' if swapped else ''))
+        if not judge(i, j, v, when):
+            return
+        want = -v0 if swapped else v0
+        if not (v == want or abs(v - want) <= 1e-12 * max(abs(v), abs(want))):
+            out.violation('oracle', 'integrate(%r, %r) = %r %s; the first time the answer was %r%s'
+                          % (lv[i], lv[j], v, when, want, tail), case=case)
+            return
+        out.nontriv(('R', tuple(knots), n_calls, i, j))
+
+
+def check_large(cases, out):
+    for case in cases:
+        ks = dict(knots=case['knots'], values=case['values'], via=case.get('via', 'class'))
+        try:
+            obj = build(ks)
+        except Exception as e:  # pylint: disable=broad-except
+            out.violation('oracle', 'SplineSpecificYield refused strictly increasing knots %r values %r: %s: %s'
+                          % (ks['knots'], ks['values'], type(e).__name__, e), case=case)
+            continue
+        (check_large_array if case['what'] == 'array' else check_large_integrals)(case, obj, out)
+
+
+
 # ------------------------------------------------------------- driver
 
 def check_sets(sets, seed, out, label):
@@ -733,6 +885,7 @@ def run(ctx, out):
     seed, tier = ctx['seed'], ctx['tier']
     rng = C.rng_for(seed, PROP)
     check_history(history_cases(seed, 2 if tier == 'quick' else 12), out)
+    check_large(large_cases(seed, tier), out)
     nsets = 200 if tier == 'quick' else 2000
     sets = []
     kinds = ['param', 'wide', 'tight', 'full', 'wiggly', 'negative']
@@ -769,7 +922,17 @@ def run(ctx, out):
                 'knots through every route; levels and limits handed over as int, np.int64/int32/float64, 0-d '
                 'arrays, lists, tuples, integer / read-only / 2-d arrays, 1-element arrays (if accepted), -0.0; '
                 'every array of levels handed over twice as owned / read-only / strided / reversed memory and '
-                'compared bit-for-bit with a pristine copy afterwards.')
+                'compared bit-for-bit with a pristine copy afterwards. Large-input stage (own random streams; ORACLE '
+                'ONLY - nothing of this size is sent to Coq, where reading the literals would dominate): ONE call with an '
+                'array of 1001-5000 (thorough: -10001) levels, sizes past 1000 / 1024 / 2048 / 4096 / 8192 and never a '
+                'multiple of a block size, shuffled / descending / an oscillating water-level record / sorted with ties / '
+                'blocks reversed, with repeated, knot and out-of-range levels, a knot and out-of-range levels planted '
+                'around indices 1000, 1024, 2048, ...: element by element the scalar value, knot values at knots, end '
+                'values beyond; and ONE object asked for 1025-5000 (thorough: -10001) DISTINCT ranges (a rise-curve grid '
+                'reaching beyond both ends, some longer ranges, some limits swapped), then the earliest, the latest and '
+                'the ranges around call numbers 1000, 1024, 2048, ... (counted from the first and from the last call) '
+                'AGAIN in both orders of the limits: every answer against the area under the same function, a repeated '
+                'one also against the first answer.')
     out.samples = [dict(knots=s_[0]['knots'], values=s_[0]['values'], pairs=[p[2:] for p in s_[1][:3]])
                    for s_ in sets[:2]]
     out.assumptions += [
@@ -787,6 +950,9 @@ def replay(case, out):
     if case.get('level') == 'history':
         check_history([dict(c, earlier=[]) for c in case.get('earlier', [])], C.Outcome(PROP))   # rebuild the history
         check_history([case], out)
+        return
+    if case.get('level') == 'large':
+        check_large([case], out)
         return
     if case.get('level') == 'malformed':
         res = malformed_try(dict(knots=case['knots'], values=case['values'], **via_fields(case)), out)
